@@ -1,6 +1,7 @@
 package sym
 
 import (
+	"os"
 	"bufio"
 	"fmt"
 	"io"
@@ -40,6 +41,11 @@ type Solver struct {
 	Errors                 int
 	watchdog               int32 // set when the hard wall-clock limit killed the process
 	Killed                 int
+	// Abstract: bvmul/bvudiv/bvurem/bvsdiv/bvsrem with a non-constant result are
+	// sent as uninterpreted functions (plus the range lemmas x%c<c, x/c<=x).
+	// Every model of the precise formula is a model of the abstract one, so an
+	// abstract "unsat" is a precise "unsat"; an abstract "sat" proves nothing.
+	Abstract bool
 }
 
 func solverArgv(name string, timeoutMs int) []string {
@@ -158,6 +164,23 @@ func (s *Solver) define(t *Term, b *strings.Builder) {
 				s.emittedUF[x.Name] = true
 				b.WriteString(s.st.ufDecl[x.Name] + "\n")
 			}
+			if s.Abstract && x.S.K == KBV && (x.Op == OMul || x.Op == OUDiv || x.Op == OURem || x.Op == OSDiv || x.Op == OSRem) {
+				nm := fmt.Sprintf("abs_%s_%d", opName[x.Op], x.S.W)
+				if !s.emittedUF[nm] {
+					s.emittedUF[nm] = true
+					fmt.Fprintf(b, "(declare-fun %s (%s %s) %s)\n", nm, x.S.SMT(), x.S.SMT(), x.S.SMT())
+				}
+				fmt.Fprintf(b, "(define-fun t%d () %s (%s %s %s))\n", x.ID, x.S.SMT(), nm, x.Args[0].ref(), x.Args[1].ref())
+				if c := x.Args[1]; c.IsConst() && c.C != 0 {
+					switch x.Op {
+					case OURem:
+						fmt.Fprintf(b, "(assert (bvult t%d %s))\n", x.ID, c.ref())
+					case OUDiv:
+						fmt.Fprintf(b, "(assert (bvule t%d %s))\n", x.ID, x.Args[0].ref())
+					}
+				}
+				continue
+			}
 			fmt.Fprintf(b, "(define-fun t%d () %s %s)\n", x.ID, x.S.SMT(), x.body())
 		}
 	}
@@ -254,6 +277,9 @@ func (s *Solver) readResult() SatResult {
 		case strings.HasPrefix(line, "(error"):
 			sawErr = true
 			s.Errors++
+			if s.Errors <= 2 && os.Getenv("SYMGO_ERRLOG") != "" {
+				fmt.Fprintf(os.Stderr, "solver %s (abstract=%v): %s\n", s.Name, s.Abstract, line)
+			}
 		}
 	}
 }
